@@ -180,6 +180,10 @@ fn eval_c19(case: &Case, acc: &Acc) -> Vec<Violation> {
     out
 }
 
+pub fn is_cyclic_par_pub(par: &str) -> bool {
+    is_cyclic_par(par)
+}
+
 /// Does some non-terminal of the canonicalized grammar derive itself (A =>+ A)?
 fn is_cyclic_par(par: &str) -> bool {
     let Ok(Ok(gc)) = catch(|| parol::obtain_grammar_config_from_string(par, false)) else { return false };
